@@ -220,7 +220,7 @@ func (s *logSink) containsAny(secrets ...string) string {
 }
 
 func runC10Case(id string, c *c10Case) {
-	defer recoverCase(id, c)
+	defer watchCase(id, c)()
 	cs := &Case{ID: id, Kind: c.Prop + "/" + c.Kind, HypOK: true, Replay: c}
 	sink := &logSink{}
 	li, _ := logging.NewInstance(logging.WithLevel(c.LogLevel), logging.WithLogger(sink.log))
